@@ -63,7 +63,17 @@ def correspond(ctx, proof_ok=True):
             if v not in names:
                 names = names + [v]
         workdir = os.path.join(ctx.work, target)
-        states = [dict(zip(names, combo)) for combo in itertools.product(['orig-value', None], repeat=len(names))]
+        # initial states of the touched variables: unset / some other value / the empty string / (template_input) the very
+        # value the parameter file is about to set -- restoration logic keyed on "did it change?" or on truthiness shows only there
+        FILEVAL = {'RUN2D': 'v9_9_9', 'RUN1D': 'v8_8_8'}
+        def choices(v):
+            c = ['orig-value', None, '']
+            if v in FILEVAL:
+                c.append(FILEVAL[v])
+            if v == 'PHOTO_RESOLVE':
+                c = ['orig-value', None]          # must be a usable directory or absent
+            return c
+        states = [dict(zip(names, combo)) for combo in itertools.product(*[choices(v) for v in names])]
         variants = [{'rescore': False, 'stub_score': True}, {'rescore': True, 'stub_score': True},
                     {'rescore': False, 'stub_score': False}] if target == 'window_score' else [{'flux': False}, {'flux': False, 'method': 'hmf'}]
         if target == 'template_input' and ctx.thorough:
@@ -88,8 +98,8 @@ def correspond(ctx, proof_ok=True):
         for b, r in zip(base, res0):
             all_runs.append((target, names, b, r))
             n = r['ncalls']
-            both_set = all(v is not None for v in b['init'].values())
-            stride = 1 if (ctx.thorough or target == 'window_score') else (2 if both_set else 9)
+            both_set = all(v == 'orig-value' for v in b['init'].values())
+            stride = 1 if (ctx.thorough or target == 'window_score') else (2 if both_set else 13)
             for k in range(0, n, stride):
                 fault_runs.append(dict(b, fault=k))
         nb = C.NPROC
@@ -119,7 +129,7 @@ def correspond(ctx, proof_ok=True):
         'distinct_nontrivial': len(set((t, str(sorted(run['init'].items())), str(run['args']), run['fault']) for t, _, run, _ in all_runs if run['fault'] is not None)),
         'rule': 'one evaluation = one real execution of window_score / template_input with an exception injected at the k-th '
                 'Python-level call made by the entry point (k = every call index of the fault-free run; in the quick tier template_input uses every 2nd index '
-                'with both variables set and every 9th with one unset), for every set/unset combination of the touched variables; '
+                'with both variables set to an unrelated value and every 13th for the other states: unset, empty string, or equal to the value the parameter file sets), for every combination of initial states of the touched variables (unset / other value / empty string / for RUN2D,RUN1D also the value the parameter file sets); '
                 'the full process environment is compared before/after and the observed os.environ operations must be a trace of the '
                 'generated skeleton (Coq: accepts).  non-trivial = a run with an injected fault; distinct by (entry point, state, variant, k)',
         'runs_by_kind': dist,
